@@ -83,6 +83,7 @@ func (w *World) Do(r *HTTPReq) *HTTPResult {
 		res.Err = err.Error()
 		return res
 	}
+	e.Opaque, e.Peer.Opaque = true, true
 	e.OnEOF = func(rst bool) { res.EOF, res.RST = true, rst }
 	e.Send(r.Bytes())
 	complete := func() bool {
